@@ -14,7 +14,10 @@ Tie: coq/model/ConnRecv.v (extracted) is run on the same decrypted payloads with
 state snapshot taken from the real connection just before the packet; compared: outcome kind,
 close error code and frame type (from the ConnectionTerminated event / the CONNECTION_CLOSE on the
 wire), number of frames logged in qlog packet_received.frames; and the header decision function
-against qlog packet_dropped triggers."""
+against qlog packet_dropped triggers.
+Round s05: path games (harness/props/c05_paths.py) -- the network-path table built up by long histories of migrations and
+PATH_CHALLENGE / PATH_RESPONSE validations from up to 20 source addresses, then one more packet; no-raise oracle + table oracle;
+coq/model/ConnPaths.v (exec_paths) compared with the real table after every receive / transmit call."""
 import collections
 import json
 import os
@@ -27,7 +30,7 @@ GENERATORS = ["c05_tables", "c05_tls", "c05_paths"]
 DEPENDS = ["Frames", "ConnRecv", "FramesP", "ConnRecvP", "C05Tables(gen)", "StreamRecv", "RangeSet", "Base", "Tok", "C05",
            "TlsParse", "TlsRecv", "TlsParseP", "TlsRecvP", "TlsSitesP", "C05Tls(gen)", "TlsDispatch(gen)", "Codec", "TlsCodec",
            "ConnDgram", "ConnDgramP", "ConnClose", "ConnCloseP", "AfterCloseP", "Header", "HeaderProofs", "Varint", "Builder",
-           "BuilderProofs", "C13Consts(gen)", "Timers", "TimersSpec", "TimersP"]
+           "BuilderProofs", "C13Consts(gen)", "Timers", "TimersSpec", "TimersP", "ConnPaths", "ConnPathsP", "C05Paths(gen)"]
 TRUSTED_BASE = [
     "extraction (ExtrOcamlBasic only; Z kept inductive) + coq/extract/driver.ml for running the model",
     "tools/gen/c05_tables.py (ast reader of __frame_handlers / enums; output is compared with the running "
@@ -42,6 +45,11 @@ TRUSTED_BASE = [
     "tools/gen/c05_tls.py + gen/TlsDispatch.v (ast readers) pin enums, dictionaries, default lists, the dispatch table and "
     "the raise-site skeleton of tls.py; harness/props/c05_tlsmsg.py reads the Context's private attributes and wraps "
     "tls.decode_public_key / tls.verify_certificate / Context._handle_reassembled_message to record oracle answers",
+    "network-path table (coq/model/ConnPaths.v): tools/gen/c05_paths.py (ast reader: MAX_NETWORK_PATHS, the eviction / promotion "
+    "indices, the source listing of every statement that touches _network_paths or a validation flag); the verdict of each packet "
+    "(epoch, probing, newest, which challenge a PATH_RESPONSE matched) is model INPUT recorded by harness/props/c05_paths.Recorder "
+    "through instance-level wrappers around receive_datagram / datagrams_to_send / connect / _payload_received and the qlog "
+    "path-frame encoders; the table oracle peeks at _network_paths (labelled, trusted harness code)",
     "frame-layer model (ConnRecv.v) calls TlsRecv.crypto_deliver below the CRYPTO handler; in the frames tie the oracle records "
     "of the TLS layer are recorded from the real connection's tls.Context (c05_tlsmsg.Recorder; the transport-parameter verdict "
     "is the QuicConnectionError of the real _alpn_handler)",
@@ -59,6 +67,8 @@ ASSUMPTIONS = [
     "receive_datagram_total quantifies over all answers",
     "receive_datagram_total: dconn_ok = tls_ok + (_initialize() has run, or server in FIRSTFLIGHT) + (no _close_event while the gate is open): "
     "Example dconn_ok_example; a client must have called connect() (API discipline, as in C09's first_op)",
+    "path_datagram_total / path_run_total: tab_ok (len(_network_paths) <= MAX_NETWORK_PATHS, no path object twice): Example tab_ok_example; "
+    "re-established by the theorems themselves from connect() / the server's first flight; network_path_update_total has no hypothesis",
     "after_close_send_total: wf_cfg (lengths >= 0), crypto_fits (max_datagram_size <= 1500, the CryptoPair's scratch buffers), close event with "
     "0 <= code, frame type < 2^62: Example close_send_hyps; holds for the tree with docs/C05-fix-10.patch (26d6ec4), refuted before (after_close_refuted)",
 ]
@@ -2170,6 +2180,16 @@ def gen_path_cases(rng, n):
         # every directed history on a server; the validated ones on every subject kind
         for side, state in (combos if name.startswith("validated") else combos[:1 + (i % 2)]):
             cases.append({"spec": spec(side, state, 700 + (i % 3)), "ops": ops, "name": name})
+    # handshake-state subjects: Initial / Handshake-epoch packets from several addresses ("validated by the handshake")
+    for i, (side, ops) in enumerate(c05_paths.handshake_histories(rng, max(4, n // 8))):
+        cases.append({"spec": spec(side, "handshake", 720 + (i % 3)), "ops": ops, "name": "handshake/%s" % side})
+    # server first flight: the first datagram (`_network_paths = [network_path]`), then the same Initial from another address
+    lab0 = Lab(spec("server", "firstflight", 730))
+    genuine = lab0.genuine.hex()
+    cases.append({"spec": spec("server", "firstflight", 730), "ops": [["dg", genuine], ["dgx", genuine], ["dg", genuine], ["adv", 0.3]],
+                  "name": "firstflight/server"})
+    cases.append({"spec": spec("server", "firstflight", 730), "ops": [["dgx", genuine], ["dg", genuine], ["adv", 0.3]],
+                  "name": "firstflight/server"})
     sizes = [2, 7, 8, 9, 12, 20]
     for i in range(n):
         side, state = combos[i % len(combos)]
@@ -2205,7 +2225,8 @@ def run_path_games(ctx, rng, n, stats, report, suite):
     cases = [dict(c, name=c.get("name", "corpus")) for c in corr.load_corpus("C05", "paths")] + gen_path_cases(rng, n)
     hist = collections.Counter()
     for c in cases:
-        hist[c["name"] if c["name"].startswith("random") else ("corpus" if c["name"] == "corpus" else "directed")] += 1
+        nm = c["name"]
+        hist[nm if nm.split("/")[0] in ("random", "handshake", "firstflight", "corpus") else "directed"] += 1
     stats["path_games"] = dict(hist)
     stats["path_worlds"] = len(cases)
     stats["worlds"] += len(cases)
